@@ -555,6 +555,14 @@ def run(case, ctx):
                         'name'])
     with open(cpath, 'w', encoding='utf-8') as f:
         f.write(cons.to_json())
+    if case['frame']['n'] % 4 == 1:
+        # the constraints also name a column the data file does not have
+        # (that constraint fails; no record fails because of it)
+        cj = json.load(open(cpath, encoding='utf-8'))
+        cj['fields']['no_such_column'] = {'type': 'int', 'min': 0}
+        with open(cpath, 'w', encoding='utf-8') as f:
+            json.dump(cj, f)
+        out.label('constraint-on-a-missing-column')
     cpath_arg = 'cons.tdda' if subdir else cpath
     flags = []
     kw = {}
